@@ -207,6 +207,15 @@ HARNESSES = [
       fns=['transcode::stream::transcode', 'transcode::stream::Visitor::visit_seq', 'transcode::stream::Visitor::visit_map', 'transcode::stream::SeqSeed/KeySeed/ValueSeed::deserialize',
            'transcode::stream::Forwarder::serialize', 'transcode::stream::Forwarder::serialize_with_seed'], timeout=900, min_covers=3,
       assumes=['serde protocol: one visit_* per deserialize_any; Serialize::serialize called at most once per element']),
+    H('U-TX', 'stream', 'tx_depth_induction_step', 'bounded', ['C11', 'C12', 'C01', 'C06', 'C04'],
+      bounds='EVERY nesting depth (children in element / key / value position are abstract subtrees that may do anything the subtree contract allows); <= 2 elements / 1 map entry per collection',
+      fns=['transcode::stream::Visitor::visit_seq', 'transcode::stream::Visitor::visit_map', 'transcode::stream::SeqSeed/KeySeed/ValueSeed::deserialize',
+           'transcode::stream::Forwarder::serialize', 'transcode::stream::Forwarder::serialize_with_seed', 'transcode::stream::State::*'], timeout=900, min_covers=3,
+      assumes=['serde protocol: one visit_* per deserialize_any; Serialize::serialize called at most once per element; a (de)serializer stops at the first error']),
+    H('U-TX', 'stream', 'tx_depth_induction_base', 'complete', ['C11', 'C12', 'C01', 'C06'], bounds='every scalar leaf outcome (bool / u64 / unit / deserializer failure) x serializer accepts / fails',
+      fns=['transcode::stream::Visitor::visit_*', 'transcode::stream::Visitor::forward_scalar'], timeout=300),
+    H('U-TX', 'stream', 'tx_transcode_maps_v_contract_to_error', 'complete', ['C11', 'C12'], bounds='every outcome of an abstract top-level document satisfying the subtree contract',
+      fns=['transcode::stream::transcode', 'transcode::stream::State::error_source', 'transcode::stream::State::into_error'], timeout=300, min_covers=3),
     H('U-TX', 'stream', 'tx_error_attribution_depth2', 'bounded', ['C11', 'C12', 'C01'], tier='thorough', bounds='mock nesting depth 2 (collections in element, key and value position)',
       fns=['transcode::stream::transcode'], timeout=3600, min_covers=3),
     H('U-TX', 'stream', 'tx_json_e2e_seq', 'bounded', ['C01', 'C06', 'C03'], bounds='document [bool, null]; REAL serde_json serializer behind the REAL transcoder',
@@ -303,27 +312,36 @@ PROPERTIES = {
         explanation='Schedule transparency of every reader xt owns (CaptureReader, FusedReader chain, Utf16/Utf32 decoders, Utf8Encoder, ChunkReader): the bytes '
                     'handed to the consumer are a function of the bytes delivered by the source for every pattern of short reads (step-inductive contracts). '
                     'MessagePack slice vs reader: Verus proves next_value_size == mp_value and rmp_value => mp_value, so the slice cut is where rmp_serde stops. '
-                    'YAML slice fast path only for UTF-8-encoded streams (repaired defect F2).',
-        assumptions=['BufReader and the parsers\' own readers honour the Read contract', 'rmp_value: assumed spec of rmp_serde',
+                    'YAML slice fast path only for UTF-8-encoded streams (repaired defect F2). '
+                    'Verus (U-CAP-V, U-ENC-V, U-CHK-V) proves the step contracts of CaptureReader::read, Utf8Encoder::read and ChunkReader::read on the verbatim code for EVERY buffer size and stream length, '
+                    'and theorems over those contracts (reads after a rewind replay the stream from byte 0; any read schedule of the re-encoder concatenates to utf8(text)); the Kani harnesses run the same code against the real std within size bounds.',
+        assumptions=['std::io::{Read, Write, Cursor, Take}, Vec::drain, mem::replace, char::encode_utf8, Iterator (vstd prophetic model) carry assumed specifications in the Verus units (listed in coverage.trusted_base)', 'BufReader and the parsers\' own readers honour the Read contract', 'rmp_value: assumed spec of rmp_serde',
                      'serde_yaml::Deserializer::from_str precondition-contract'],
         not_covered=['JSON StreamDeserializer vs end() loop (`truefalse`)', 'serde_yaml void document for comment-only files', 'toml::Value Serialize- vs Deserialize-path on repeated keys',
                      'prefix-comparability of partial outputs (all four are differences between two entry points of third-party crates; known from the property text, outside this technique)']),
     'C03': dict(
         explanation='Document cutting is an ordered partition: msgpack::transcode hands the output rest[..n] with n the exact size of the first value (Verus, unbounded; '
                     'loop wiring by Kani with the proved contract substituted), consecutive, non-empty, covering the input; ChunkReader::take_to_offset / trim_to_offset '
-                    'return / keep exactly stream[start..o] / stream[o..delivered].',
-        assumptions=['libyaml marks are monotone and within the bytes delivered', 'Chunker::next emits every chunk exactly once (calls libyaml; not under contract)'],
+                    'return / keep exactly stream[start..o] / stream[o..delivered]. Verus (U-CHK-V) proves Chunker::next on the verbatim code for ALL event histories against an assumed libyaml '
+                    'event contract: the k-th Some(Ok(doc)) is exactly stream[start_k..end_k] of the k-th document of the event history (no gap byte, no neighbour byte, kind of its first content event), '
+                    'emitted exactly once and in order, None only after every completed document was emitted; documents of a monotone history are ordered disjoint intervals (theorem).',
+        assumptions=['libyaml event contract (assumed, stated as the stand-in Parser::next_event contract in U-CHK-V): one event per call, marks monotone, within the bytes delivered and on UTF-8 boundaries, '
+                     'bytes reach libyaml only through ChunkReader::read, DOCUMENT-END is followed by DOCUMENT-START or STREAM-END', 'termination of the event loop in Chunker::next rests on libyaml reaching a document boundary (not proved)'],
         not_covered=['writeln!/--- framing in json::Output / yaml::Output (real serializers are out of CBMC\'s reach; pinned by the golden-file tests)', 'Translator keeping one output', 'the CLI loop']),
     'C04': dict(
         explanation='Panic-freedom / termination of every function under contract: Verus checks bounds, overflow and decreases for the size calculator (all inputs); every Kani '
                     'harness checks all panics, unwraps, index, overflow and pointer obligations of the real code under its stated precondition, incl. stream.rs '
-                    'into_error().unwrap() and take_parent().expect() under adversarial mocks, CaptureReader index arithmetic, ArrayBuffer/Utf8Encoder slicing, decoder arithmetic.',
-        assumptions=['all dependency code is total', 'libyaml marks valid (String::from_utf8(chunk).unwrap() in Chunker::next rests on it and is NOT verified)'],
-        not_covered=['stack depth', 'hangs inside parsers (e.g. while de.end().is_err())', 'alias bombs / huge declared lengths inside rmp/serde', 'Chunker::next, Parser::new/next_event, main()']),
+                    'into_error().unwrap() and take_parent().expect() under adversarial mocks, CaptureReader index arithmetic, ArrayBuffer/Utf8Encoder slicing, decoder arithmetic. '
+                    'Verus additionally proves absence of overflow / out-of-bounds / failed unwrap for every size in CaptureReader, FusedReader, Handle::borrow_mut, Ref::prefix (U-CAP-V), ArrayBuffer<SIZE>, Utf8Encoder::read incl. termination of both loops (U-ENC-V), '
+                    'ChunkReader and Chunker::next incl. String::from_utf8(chunk).unwrap() under the libyaml mark assumption (U-CHK-V).',
+        assumptions=['all dependency code is total', 'libyaml marks valid and on UTF-8 boundaries (String::from_utf8(chunk).unwrap() in Chunker::next is proved panic-free UNDER this assumption)'],
+        not_covered=['stack depth', 'hangs inside parsers (e.g. while de.end().is_err()); termination of Chunker::next', 'alias bombs / huge declared lengths inside rmp/serde', 'Parser::new/next_event, main()']),
     'C05': dict(
         explanation='Footprint contracts on the buffers xt owns: CaptureReader::read consults the source at most once and never for more than fits the caller buffer (no read-ahead); '
                     'capture_up_to_size never captures beyond max(len, size); FusedReader drops the captured prefix at its first EOF; ChunkReader holds exactly stream[start..delivered] '
-                    'and performs one inner read per read; decoders consume exactly one character\'s units; Utf8Encoder holds back at most 3 bytes.',
+                    'and performs one inner read per read; decoders consume exactly one character\'s units; Utf8Encoder holds back at most 3 bytes. Verus proves the same footprints for every size: '
+                    'capture_up_to_size never beyond max(len, size) (U-CAP-V); Chunker invariant captured == stream[cut_point..] after every event, i.e. memory = bytes since the current document start (U-CHK-V); '
+                    'Utf8Encoder remainder <= 3 bytes and only when the caller buffer is full (U-ENC-V).',
         assumptions=['BufReader 8 KiB read-ahead', 'libyaml look-ahead and Chunker::next one-document deferral (so the k+2 constant is not proved)'],
         not_covered=['heap measurements', 'first-document-after-one-read for json/msgpack transcode loops (needs the real parsers)']),
     'C06': dict(
@@ -335,8 +353,10 @@ PROPERTIES = {
         explanation='Encoding::detect == YAML 1.2.2 section 5.2 table for every prefix (complete); Utf16Decoder::next / Utf32Decoder::next step contracts from arbitrary state over every '
                     'code unit value (complete): Ok(c) iff well-formed, c the exact scalar value, exactly those units consumed; every ill-formed class => Err, never a fabricated '
                     'character; Utf8Encoder::read step contract: bytes out ++ remainder == remainder ++ utf8(chars), BOM skipped exactly once; yaml::transcode takes the '
-                    'serde_yaml fast path only for UTF-8-encoded slices (repaired defect F2).',
-        assumptions=['libyaml / serde_yaml treat the re-encoded bytes like native UTF-8 input (they receive identical bytes)', 'decoder byte positions < 2^64-16'],
+                    'serde_yaml fast path only for UTF-8-encoded slices (repaired defect F2). Verus (U-ENC-V): Utf8Encoder::read / next_char / ArrayBuffer on the verbatim code for EVERY buffer size and character sequence against an '
+                    'independent bit-level definition of UTF-8, and the stream theorem: any schedule of read() calls hands out exactly utf8(text without one leading BOM).',
+        assumptions=['libyaml / serde_yaml treat the re-encoded bytes like native UTF-8 input (they receive identical bytes)', 'decoder byte positions < 2^64-16',
+                     'char::encode_utf8 == utf8_bytes (assumed spec; RFC 3629 table) and vstd\'s prophetic Iterator model in U-ENC-V'],
         not_covered=['Encoder::from_reader peek-and-chain (io::copy under CBMC)', 'detection through yaml::input_matches (calls libyaml)']),
     'C08': dict(
         explanation='TOML output state machine, view = (used, writer calls): ensure_one_use; second use refused from any history before the deserializer is touched and with zero writer calls; '
@@ -348,8 +368,9 @@ PROPERTIES = {
         explanation='Rewindable handle: representation invariant captured == stream[..delivered] preserved by every CaptureReader operation from any valid state against a source that '
                     'short-reads / fails / EOFs at will (unbounded history); borrow_mut always rewinds; detect_format returns the first Ok(true) in order MessagePack, JSON, YAML, TOML, '
                     'None iff all Ok(false), Err iff a trial failed first (complete over all outcomes), each trial sees the stream from byte 0; error mapping of the MessagePack and JSON '
-                    'trials: Err only if the source itself failed (repaired defect F3); MessagePack first-byte gate over all 256 bytes.',
-        assumptions=['what each trial parser accepts (assumed)', 'std::io::default_read_to_end stubbed by its documented contract in capture_* harnesses',
+                    'trials: Err only if the source itself failed (repaired defect F3); MessagePack first-byte gate over all 256 bytes. Verus (U-CAP-V) proves the CaptureReader / Handle::borrow_mut / Ref::prefix contracts on the verbatim code for EVERY stream length and buffer size, plus the history theorem '
+                    '(any sequence of reads after a rewind yields capture[0..pos], i.e. the stream from byte 0).',
+        assumptions=['what each trial parser accepts (assumed)', 'assumed std specs of Cursor / Read / Write / Take in U-CAP-V (coverage.trusted_base)', 'std::io::default_read_to_end stubbed by its documented contract in capture_* harnesses',
                      'rmp_serde / serde_json error categories as stated in the stubs'],
         not_covered=['same-format detection from slice and reader for JSON/YAML/TOML (two parser entry points each)', 'yaml::input_matches / toml::input_matches result mapping (call libyaml / toml)',
                      'reading through the chain built by Input::from(handle) and Ref::prefix through Box<dyn Read> (out of CBMC\'s reach; the decision of Input::from, capture_up_to_size and FusedReader are under contract)']),
@@ -361,13 +382,15 @@ PROPERTIES = {
     'C11': dict(
         explanation='Error attribution of the streaming transcoder against adversarial mocks with ghost own/synthetic tags and a first-failure record: deserializer failed first => Error::De(own error); '
                     'serializer failed first at any position (scalar, serialize_seq/map, before / inside / after an element, key, value, end) => Error::Ser(that own error); a synthetic '
-                    '"translation failed" error is never the reported cause (repaired defect F1). Per-function contracts (serialize_with_seed, capture_*) from arbitrary states carry it to any depth.',
+                    '"translation failed" error is never the reported cause (repaired defect F1). Per-function contracts (serialize_with_seed, capture_*) from arbitrary states carry it to any depth. The induction over nesting depth is machine-checked: tx_depth_induction_step proves that a collection whose children are ABSTRACT subtrees '
+                    '(any behaviour the subtree contract allows) satisfies the subtree contract, through the real visit_seq / visit_map / seeds / Forwarder; tx_depth_induction_base proves it for scalar leaves; tx_transcode_maps_v_contract_to_error maps it to Error::De / Error::Ser.',
         assumptions=['parser error texts carry positions; Display of Error::Ser is "{de_err}: {ser_err}" (Display impls not under contract)'],
-        not_covered=['message texts', 'TOML target errors produced inside toml::Value::deserialize', 'mock depth > 2']),
+        not_covered=['message texts', 'TOML target errors produced inside toml::Value::deserialize', 'collections with more than 2 elements / 1 entry per level (loop iterations beyond the unwinding bound; depth is unbounded)']),
     'C12': dict(
         explanation='Fault propagation through xt-owned code: reader faults (CaptureReader, capture_*, decoders, ChunkReader, libyaml read callback) surface as Err with the invariant intact and no '
                     'byte lost or invented; detection does not swallow faults (MessagePack/JSON mapping, detect_format); writer faults travel as serializer errors (C11) and through '
-                    'TOML write_all; Translator::flush returns the writer\'s result; what the serializer accepted is a prefix of what the deserializer produced.',
+                    'TOML write_all; Translator::flush returns the writer\'s result; what the serializer accepted is a prefix of what the deserializer produced. Verus: on Err the capture of CaptureReader is intact and source_eof unchanged (every size); '
+                    'Utf8Encoder::read returns the source\'s own error (never Ok, never invented); ChunkReader::read keeps the capture on Err; Chunker::next wraps parser errors as InvalidData and loses no completed document.',
         assumptions=['serializer crates write a prefix of the fault-free output and handle short writes (inside the crates / write_all)'],
         not_covered=['bytes accepted by a failing writer are a prefix of the fault-free output (serializer crates)', 'Parser::next_event re-surfacing the stashed error (calls libyaml)',
                      'complete documents delivered before a reader fault (needs the parsers)']),
